@@ -162,6 +162,8 @@ SigJudge(e) ==
                     /\ o.verify = v /\ o.verify2 = v /\ o.raw = v /\ o.strict = s
                     /\ o.weak = IsSmallOrder(DecompressPt(A))
                     /\ o.pk_edwards = Compress(DecompressPt(A))
+                    \* the key object holds the supplied bytes whichever constructor built it
+                    /\ (Has(o, "key_bytes") => (\A k \in 1..Len(o.key_bytes) : o.key_bytes[k] = A) /\ o.slice_key_same)
                     /\ (short => /\ o.ph = pv /\ o.ph_raw = pv /\ o.ph_strict = ps /\ o.ph_ctx = pv
                                  /\ o.ph_none = VerifyAccepts(A, TRUE, <<>>, m, sg, LEGACY))
                     \* a context longer than 255 bytes is malformed input: refused by with_context, and every
